@@ -897,9 +897,12 @@ def evaluate__tokenize(self: XPathFunction, context: ta.ContextType = None) -> t
 
     result = []
     if input_string:
-        for value in re_pattern.split(input_string):
-            if value is not None and re_pattern.search(value) is None:
-                result.append(value)
+        # the substrings between the matches (re.split would insert the captured groups)
+        pos = 0
+        for match in re_pattern.finditer(input_string):
+            result.append(input_string[pos:match.start()])
+            pos = match.end()
+        result.append(input_string[pos:])
 
         if len(result) == 1:
             return result[0]
